@@ -189,6 +189,12 @@ func judgeSecretsIn(c *Ctx, workDir, srcDB, label string, r *sched.Rng, wit map[
 	for _, l := range []int{1, 8, len(world.Password), 32} {
 		pws = append(pws, pw{fmt.Sprintf("%d zero bytes", l), make([]byte, l)})
 	}
+	// the operator's password with blanks or a line terminator around it is another password
+	// (not tried: the password followed by NUL bytes - scrypt's PBKDF2-HMAC pads a short key with zeros, so
+	// that is the same key for the primitive, and it cannot be typed at the prompt)
+	for _, v := range []string{world.Password + " ", " " + world.Password, world.Password + "\n", world.Password + "\r\n", "\t" + world.Password} {
+		pws = append(pws, pw{fmt.Sprintf("%q", v), []byte(v)})
+	}
 	for k := 1; k < 8; k++ {
 		s := fmt.Sprintf("%s%x", []string{"", "x", world.Password[:len(world.Password)-1], world.Password + " "}[k%4], r.Bytes(k%5))
 		if s != world.Password {
